@@ -147,6 +147,82 @@ fn run_fold_vectors(out: &mut impl Write) {
     }
 }
 
+fn dehex(h: &str) -> String {
+    if h == "-" {
+        return String::new();
+    }
+    (0..h.len() / 6).map(|i| char::from_u32(u32::from_str_radix(&h[6 * i..6 * i + 6], 16).unwrap()).expect("scalar value")).collect()
+}
+
+fn enhex(s: &str) -> String {
+    if s.is_empty() {
+        return "-".to_string();
+    }
+    s.chars().map(|c| format!("{:06x}", c as u32)).collect()
+}
+
+/// binary path of one instruction: real writer -> record framing as in MScriptFile::get_functions -> real tokenizer
+fn codec_binary(opcode: u8, args: &[String]) -> String {
+    use crate::ast::CompiledItem;
+    let item = CompiledItem::Instruction { id: opcode, arguments: args.to_vec().into_boxed_slice() };
+    let Ok(text) = item.repr(false) else { return "WRITER-ERR".to_string() };
+    decode_record(text.as_bytes(), opcode)
+}
+
+pub(crate) fn decode_record(bytes: &[u8], opcode: u8) -> String {
+    // `read_until(0x00)`: the first record ends at the first NUL
+    let end = match bytes.iter().position(|b| *b == 0) {
+        Some(p) => p,
+        None => return "BADRECORD no-nul".to_string(),
+    };
+    if end + 1 != bytes.len() {
+        return "BADRECORD split".to_string();
+    }
+    let rec = &bytes[..=end];
+    match rec {
+        [ins, b' ', args @ .., 0x00] => {
+            if *ins != opcode {
+                return "BADRECORD opcode".to_string();
+            }
+            match bytecode::compilation_bridge::split_string(String::from_utf8_lossy(args).as_ref()) {
+                Ok(v) => format!("OK {} {}", v.len(), v.iter().map(|s| enhex(s)).collect::<Vec<_>>().join(" ")).trim_end().to_string(),
+                Err(_) => "ERR".to_string(),
+            }
+        }
+        [ins, 0x00] => {
+            if *ins != opcode { "BADRECORD opcode".to_string() } else { "OK 0".to_string() }
+        }
+        _ => "BADRECORD pattern".to_string(),
+    }
+}
+
+fn run_codec_vectors(out: &mut impl Write) {
+    let Ok(path) = std::env::var("VERIF_CODEC_VECTORS") else { return };
+    std::panic::set_hook(Box::new(|_| {}));
+    for line in std::fs::read_to_string(path).expect("vectors").lines() {
+        let t: Vec<&str> = line.split_whitespace().collect();
+        if t.len() < 3 {
+            continue;
+        }
+        let opcode: u8 = t[2].parse().unwrap();
+        let args: Vec<String> = t[3..].iter().map(|h| dehex(h)).collect();
+        let r = std::panic::catch_unwind(std::panic::AssertUnwindSafe(|| {
+            if t[1] == "binary" {
+                codec_binary(opcode, &args)
+            } else {
+                use crate::ast::CompiledItem;
+                let item = CompiledItem::Instruction { id: opcode, arguments: args.clone().into_boxed_slice() };
+                match item.repr(true) {
+                    Ok(text) => format!("TEXT {}", text.bytes().map(|b| format!("{:02x}", b)).collect::<String>()),
+                    Err(_) => "WRITER-ERR".to_string(),
+                }
+            }
+        }))
+        .unwrap_or_else(|_| "PANIC".to_string());
+        writeln!(out, "codec {} {}", t[0], r).unwrap();
+    }
+}
+
 #[test]
 fn verif_native_run() {
     let out_path = match std::env::var("VERIF_RESULTS") {
@@ -155,6 +231,7 @@ fn verif_native_run() {
     };
     let mut out = std::io::BufWriter::new(std::fs::File::create(&out_path).expect("results"));
     run_fold_vectors(&mut out);
+    run_codec_vectors(&mut out);
     let flags = TypecheckFlags::<&ClassType>::classless();
     for (ln, l) in kinds() {
         for (rn, r) in kinds() {
